@@ -202,6 +202,23 @@ def r2(ctx, rep):
     rep.check(parsed_as == {"source_id": "u16", "start": "usize", "end": "usize"}, "span:widths",
               f"each component must be parsed at the width of its field (source_id: u16, start / end: usize); found {parsed_as}: a narrower parse rejects spans of large sources",
               file=de[0]["file"], line=de[0]["l"], fn=de[0]["path"])
+    # the reader accepts every value of that width: a rejection that depends on the parsed VALUE refuses documents the writer produces
+    # (the std library's own spans carry source id 0)
+    value_rej = []
+    for n in walk(body):
+        if n.get("k") == "if" and any(r.get("k") == "return" and "Err" in show(r.get("e"), maxdepth=4) for r in walk(n["t"])) or \
+                (n.get("k") == "if" and any(x.get("k") == "call" and show(x["f"]) == "Err" for x in walk(n["t"]))):
+            c = n["c"]
+            if c.get("k") == "let":
+                continue            # `if let Some(..) = split_once(..)`: the shape of the text, not a value
+            value_rej.append(show(c, maxdepth=8))
+    for n in walk(body):
+        if n.get("k") == "match":
+            for a in n["arms"]:
+                if a.get("guard") is not None and "Err" in show(a["body"], maxdepth=6):
+                    value_rej.append("match guard " + show(a["guard"], maxdepth=8))
+    rep.check(not value_rej, "span:reader-total", f"the Span reader rejects documents depending on a parsed value ({value_rej}): `from_rq` writes the spans of std.prql with source id 0 "
+              "(`remove`, `intersect`), so the RQ document of such a program cannot be read back", file=de[0]["file"], line=de[0]["l"], fn=de[0]["path"])
     # Ident: sequence of path ++ [name]  <->  from_path(Vec<String>)
     ise = [f for f in syn.fns if f["crate"] == "prqlc_parser" and f.get("self_short") == "Ident" and f.get("trait_short") == "Serialize"]
     ide = [f for f in syn.fns if f["crate"] == "prqlc_parser" and f.get("self_short") == "Ident" and f.get("trait_short") == "Deserialize"]
